@@ -1,19 +1,20 @@
 """C06 - GLM fitting returns the (penalised) MLE with correct inference (DESIGN 4/C06)."""
 LEVEL = "model_checking"
-RULE = ('P1: TLC solves in exact rationals (a) the Gaussian family as weighted ridge least squares with unpenalised '
-        'intercept on three integer designs (p = 2, 3; n = 5..7) x responses x weights x offsets x alpha in {0, 1/8, 1,'
-        ' 10} and checks that the solution satisfies the penalised score equations; (b) grouped designs (intercept + '
-        'indicators, 2-3 groups) for all six families: the weighted group means satisfy the score equations, Bernoulli '
-        'means are interior, Fisher information X^T diag(w k(mu)) X; P2: every case is fitted by the real GLM '
+RULE = ("P1: TLC solves in exact rationals (a) the Gaussian family as weighted ridge least squares with unpenalised "
+        "intercept on three integer designs (p = 2, 3; n = 5..7) x responses x weights x offsets x alpha in {0, 1/8, 1,"
+        " 10} and checks that the solution satisfies the penalised score equations; (b) grouped designs (intercept + "
+        "indicators, 2-3 groups) for all six families: the weighted group means satisfy the score equations, Bernoulli "
+        "means are interior, Fisher information X^T diag(w k(mu)) X; P2: every case is fitted by the real GLM "
         "(tolerance 1e-13): coefficients (Gaussian), predictions = fitted means, deviance = RSS and = the family's "
-        'deviance at the fitted means (unit weights), dispersion convention, se^2 and covariance diagonal = reported '
-        'dispersion x diag(inverse exact information), invariance under reversing the rows, an iteration budget of 1 =>'
-        ' Err, accessors fail before a fit; P3 (observation validated by TLC Trace_GLM): 120 (quick) / 1200 random '
-        'designs with responses simulated from the model, weights / offsets / alpha in {0, .1, 1, 10}, tolerances '
-        '1e-8..1e-14, a third with large-mean responses (log-link iteration starts far from the solution), half on an '
-        'object that was already fitted to other responses with another configuration: the penalised score at the '
-        'returned coefficients vanishes to 4 sqrt(tolerance) relative to its terms or to the scale of the data. Case '
-        'class = (family, design kind, weights, offset, ridge).')
+        "deviance at the fitted means (unit weights), dispersion convention, se^2 and covariance diagonal = reported "
+        "dispersion x diag(inverse exact information), invariance under reversing the rows, an iteration budget of 1 =>"
+        " Err, accessors fail before a fit; P3 (observation validated by TLC Trace_GLM): 120 (quick) / 1200 random "
+        "designs with responses simulated from the model, weights / offsets / alpha in {0, .1, 1, 10}, tolerances "
+        "1e-8..1e-14, a third with large-mean responses (log-link iteration starts far from the solution), a third on "
+        "an object that was already fitted to other responses with another configuration and a third retried as "
+        "configured after a fit that failed with a budget of one iteration: the penalised score at the returned "
+        "coefficients vanishes to 4 sqrt(tolerance) relative to its terms or to the scale of the data. Case class = "
+        "(family, design kind, weights, offset, ridge).")
 ASSUMPTIONS = ["exact oracle: Gaussian family and grouped designs only (32-bit rationals); for general designs of the other five families the score equations are an observation computed by the harness with the textbook link / variance functions",
                "weighted deviance / dispersion conventions are not judged (the property does not fix them); aic/bic are not judged",
                "the residual sum of squares is compared only where the exact value fits in 32-bit integers (16 of 49 Gaussian cases)"]
